@@ -327,6 +327,9 @@ def _histories(ctx, spec, g, path, ct, reqs, pending, case):
     }
     if n > 1:
         orders['shuffled'] = [('nth', k) for k in r.sample(range(1, n + 1), min(n, 5))] + [('whole',)]
+    if path not in ('annread', 'group.from_dataset') and ctx.tier == 'quick':
+        # quick tier: the other parsing paths run the three orders that distinguish them (thorough: all)
+        orders = {k: orders[k] for k in ('nth-first', 'wrong-type-first', 'wrong-type-last')}
     sv = None
     for oname, acc in orders.items():
         d = deepcopy(g)
